@@ -230,13 +230,21 @@ def check_program(m, mod, res, case_base, truth):
         texp_cmp = [(n, v) for n, v in texp if n in ("#enter", "#exit", "#yield")]
         vgot = sorted((n, v) for n, v in got if n in ("#value", "#error"))
         vexp = sorted((n, v) for n, v in texp if n in ("#value", "#error"))
-        if tgot != texp_cmp:
+        if "yield_from" in m["features"] and any(op[0] == "throw" for op in (m["script"] or [])):
+            # gen.throw() on a generator suspended in `yield from` is delegated to the sub-iterator
+            # without resuming the generator's own frame: sys.monitoring reports no PY_YIELD for the
+            # value the sub-iterator yields in answer, although the generator did yield it to its
+            # caller (the twin oracle below still checks these runs)
+            res.count("monitoring_yield_oracle_skipped_throw_into_delegation")
+        elif tgot != texp_cmp:
             res.violation(case, {"what": "enter/yield/exit events disagree with sys.monitoring ground truth", "monitoring": tev[:12], **streams.first_diff(texp_cmp, tgot)})
         if vgot != vexp:
             res.violation(case, {"what": "return-value / error events disagree with sys.monitoring ground truth", "monitoring": tev[-6:], "expected": vexp, "got": vgot})
         n_recv_exp = sum(1 for n, _ in texp if n == "#receive")
         n_recv_got = sum(1 for n, _ in got if n == "#receive")
-        if n_recv_exp != n_recv_got:
+        if "yield_from" in m["features"] and any(op[0] == "throw" for op in (m["script"] or [])):
+            pass
+        elif n_recv_exp != n_recv_got:
             res.violation(case, {"what": "number of #receive events differs from the number of next/send resumptions", "expected": n_recv_exp, "got": n_recv_got, "monitoring": tev[:12]})
         # (3) twin: full merged stream incl. loops, receive values and variable events
         res.deciding += 1
